@@ -29,8 +29,8 @@ def ref_text(prog, ref, qualify=None, spell=None, scalar_form="plain"):
     c = ref["c"]
     if c == "count(*)":
         return c
-    if ref["r"] == 0:
-        return c
+    if ref["r"] in (0, 7):
+        return c          # 7: a name spelled like the alias of an earlier select item (lateral column alias reference)
     if ref["r"] == 8:
         # a scalar subquery over a table of its own (bare, or as the argument of a function)
         q = "(select max(zc) from %szt)" % (qualify + "." if qualify else "")
